@@ -2,7 +2,8 @@
 """tools/add_manifest.py Cxx : take the JSON object of section 7 of reports/REPORT-Cxx.md into tools/manifest_src.json"""
 import sys, json, re
 P = sys.argv[1]
-t = open(f"/verif/reports/REPORT-{P}.md").read()
+EXT = "-ext" if len(sys.argv) > 2 and sys.argv[2] == "ext" else ""
+t = open(f"/verif/reports/REPORT-{P}{EXT}.md").read()
 objs = re.findall(r"```json\s*(\{.*?\})\s*```", t, flags=re.S)
 obj = None
 for o in objs:
